@@ -139,7 +139,7 @@ package diam
 //@ func (*Message).decodeAVPs(m, b) (err)
 //@   property C01 C03 C04 C06
 //@   requires m != nil && m.Header != nil && (m.dictionary != nil ==> pwf(m.dictionary))
-//@   modifies m.AVP
+//@   modifies m.AVP, m.AVP[len(m.AVP):cap(m.AVP)]
 //@   ensures [C04] framing: err == nil ==> len(m.AVP) == len(old(m.AVP)) + framecount(b, pad4s(len(b)))
 //@   loop 0
 //@     invariant [C04] at_boundary: 0 <= n && n & 3 == 0 && boundary(b, n) && n <= pad4s(len(b))
@@ -208,7 +208,7 @@ package diam
 //@ func NewMessage(cmd, flags, appid, hopbyhop, endtoend, dictionary) (m)
 //@   property C02 C16
 //@   modifies
-//@   ensures shape: m != nil && fresh(m) && m.Header != nil && fresh(m.Header) && len(m.AVP) == 0
+//@   ensures shape: m != nil && fresh(m) && m.Header != nil && fresh(m.Header) && len(m.AVP) == 0 && cap(m.AVP) == 0
 //@   ensures [C02] version: m.Header.Version == 1 && m.Header.MessageLength == 20
 //@   ensures [C16] fields: m.Header.CommandFlags == flags && m.Header.CommandCode == cmd && m.Header.ApplicationID == appid
 //@   ensures [C16] ids: (hopbyhop != 0 ==> m.Header.HopByHopID == hopbyhop) && (endtoend != 0 ==> m.Header.EndToEndID == endtoend)
@@ -219,7 +219,7 @@ package diam
 //@   property C02
 //@   requires m != nil && m.Header != nil && a != nil && a.Data != nil && valid(a.Data)
 //@   requires nongroup: !typeis(a.Data, *GroupedAVP)
-//@   modifies m.AVP, m.Header.MessageLength
+//@   modifies m.AVP, m.Header.MessageLength, m.AVP[len(m.AVP):cap(m.AVP)]
 //@   ensures [C02] length_delta: m.Header.MessageLength == old(m.Header.MessageLength) + uint32(avplen(a))
 //@   ensures [C02] appended: len(m.AVP) == old(len(m.AVP)) + 1 && m.AVP[old(len(m.AVP))] == a
 //@   ensures [C02] kept: forall i int :: 0 <= i && i < old(len(m.AVP)) ==> m.AVP[i] == old(m.AVP[i])
@@ -229,7 +229,7 @@ package diam
 //@   property C02
 //@   requires m != nil && m.Header != nil && a != nil && a.Data != nil && valid(a.Data)
 //@   requires nongroup: !typeis(a.Data, *GroupedAVP)
-//@   modifies m.AVP, m.Header.MessageLength
+//@   modifies m.AVP, m.Header.MessageLength, m.AVP[len(m.AVP):cap(m.AVP)]
 //@   ensures [C02] length_delta: m.Header.MessageLength == old(m.Header.MessageLength) + uint32(avplen(a))
 //@   ensures [C02] prepended: len(m.AVP) == old(len(m.AVP)) + 1 && m.AVP[0] == a
 //@   ensures [C02] kept: forall i int :: 0 <= i && i < old(len(m.AVP)) ==> m.AVP[i + 1] == old(m.AVP[i])
@@ -240,7 +240,7 @@ package diam
 //@   requires m != nil && m.Header != nil && data != nil && valid(data) && (m.dictionary != nil ==> pwf(m.dictionary))
 //@   requires nongroup: !typeis(data, *GroupedAVP)
 //@   requires codetype: typeis(code, int) || typeis(code, uint32) || typeis(code, string)
-//@   modifies m.AVP, m.Header.MessageLength
+//@   modifies m.AVP, m.Header.MessageLength, m.AVP[len(m.AVP):cap(m.AVP)]
 //@   ensures [C02] numeric_code_ok: typeis(code, int) || typeis(code, uint32) ==> err == nil
 //@   ensures [C02] made: err == nil ==> a != nil && fresh(a) && a.Data == data && a.VendorID == vendor && a.Flags == (vendor > 0 ? flags | 0x80 : flags)
 //@   ensures [C02] code_num: err == nil && typeis(code, uint32) ==> a.Code == code.(uint32)
@@ -364,7 +364,7 @@ package diam
 //@ func (*Message).Marshal(m, src) (err)
 //@   property C02
 //@   requires m != nil && m.Header != nil
-//@   modifies m.AVP, m.Header.MessageLength
+//@   modifies m.AVP, m.Header.MessageLength, m.AVP[len(m.AVP):cap(m.AVP)]
 //@   ensures [C02] length_recomputed: err == nil ==> m.Header.MessageLength == uint32(20 + sumlen(m.AVP, len(m.AVP)))
 //@   ensures [C02] unchanged_on_error: err != nil ==> m.Header.MessageLength == old(m.Header.MessageLength) && sameslice(m.AVP, old(m.AVP))
 //@ end
